@@ -107,7 +107,7 @@ func testOpImpl(name string, args []eval.Value) (eval.Value, error) {
 		}
 		return s, nil
 	case "c_fail":
-		return nil, userErrs[2]
+		return int64(0), userErrs[2] // a non-nil zero value beside the error, as Go code commonly returns
 	case "c_first":
 		if len(args) == 0 {
 			return nil, nil
@@ -121,7 +121,7 @@ func testOpImpl(name string, args []eval.Value) (eval.Value, error) {
 	case "c_not0":
 		for _, a := range args {
 			if z, ok := a.(int64); ok && z == 0 {
-				return nil, userErrs[4]
+				return false, userErrs[4]
 			}
 		}
 		return true, nil
